@@ -74,4 +74,11 @@ theorem C14_end_to_end (ord : Order) (ho : OrderOK ord) (pf M j : Nat) (g : SGoa
     · exact .inl p
     · exact .inr ⟨γ', fun x hx => (hag x hx).symm.trans (hag' x (Nat.lt_of_lt_of_le hx hle)), sb⟩
 
+section Examples
+/-- non-vacuity: `|x| { x == 1, q == [x | _] }` with the query variable `q` (name 0 ↦ id 0): the elaboration allocates the
+    ids 1 and 2 and the premises of `C14_end_to_end` are met -/
+example : (elabG (fun _ => 0) (.fresh 1 (.conj (.eq (.var 1) (.val (.num 1))) (.eq (.var 0) (.cons (.var 1) .any)))) 1).2 = 3 := by decide
+example : ∀ x : Name, (fun _ : Name => 0) x < 1 := fun _ => Nat.zero_lt_one
+end Examples
+
 end Pv
